@@ -164,12 +164,27 @@ def lift_pairs(pool):
     return out
 
 
+def cell_reads():
+    """one-call histories: a read-only evaluation of a memory read over two ADJACENT constant cells (every width pair, three offsets) at
+    every width / start that covers or meets them: the machine state passed in for reading must stay what it was"""
+    out = []
+    for w1 in (8, 16, 32):
+        for w2 in (8, 16, 32):
+            for off in (0, 1, 2):
+                o2 = off + w1 // 8
+                mems = [[["int", 32, 0x1000 + off], w1, ["int", w1, 0x11223344 & ((1 << w1) - 1)]], [["int", 32, 0x1000 + o2], w2, ["int", w2, 0x55667788 & ((1 << w2) - 1)]]]
+                for rw in (8, 16, 32):
+                    for ro in sorted(set([off, o2, max(0, off - 1)])):
+                        out.append([{"k": "eval", "m": {"ids": {}, "mems": mems}, "s": ["mem", ["int", 32, 0x1000 + ro], rw, None]}])
+    return out
+
+
 def w_pairs(run, st_, k, chunk):
     zyg = ZYGOTES[k % len(ZYGOTES)]
     for h in chunk:
         st_.ev()
         fails = run_history(h, zyg)
-        st_.klass("operand-text-pair" if h[0]["k"] == "asm" else "family-lift-pair")
+        st_.klass("operand-text-pair" if h[0]["k"] == "asm" else "adjacent-cells-read" if h[0]["k"] == "eval" else "family-lift-pair")
         bad = False
         for f in fails:
             sig, det = runner.norm_sig(f[0]), f[1]
@@ -485,6 +500,7 @@ def main(run):
         prs = line_pairs()
         runner.pmap(run, w_pairs, runner.chunks(prs if run.tier == "thorough" else prs[run.seed % 3::3], 16))
         runner.pmap(run, w_pairs, runner.chunks(lift_pairs(bs), 16))
+        runner.pmap(run, w_pairs, runner.chunks(cell_reads(), 16))
     if only in (None, "cache"):
         cache_matrix(run)
     for z in ZYGOTES:
